@@ -44,6 +44,7 @@ def run(chk):
     chk.rule("R5", "cache after Join: cols = both inputs, visible = left then right; both compilers agree")
     chk.rule("R6", "join rejects: different back ends, grouped inputs, common ancestor, user-suffix collision, non-boolean on, window functions in on")
     chk.rule("R7", "equality predicates are oriented (left, right) before Polars join(left_on=, right_on=)")
+    chk.rule("R8h", "rename_overwritten_cols: one fresh-name map over the colliding names renames the frame and rewrites the uuid -> name map")
     chk.rule("R8", "Polars join: after the renaming passes no physical name is in both frames and visible names are unchanged (finite-state analysis over name classes)")
 
     vb = repo.mod("pipe.verbs")
@@ -86,8 +87,10 @@ def run(chk):
     subj = scfg.subject
     n_outs = 0
     for how, (iso, full) in {"inner": (False, False), "left": (True, False), "full": (True, True)}.items():
-        ev = Evaluator({f"{subj}.how": how})
+        ev = Evaluator({f"{subj}.how": how, "query.where": []})
+        ev.unroll_once = True
         ev.skip_loops = True
+        ev.lenient = True
         try:
             outs = ev.run_block(stmts_s)
         except Unsupported as u:
@@ -109,8 +112,24 @@ def run(chk):
             on = env.get("compiled_on")
             on_tags = all_tags(on) if on is not None else frozenset()
             asserts = env.get("__asserts__", [])
-            right_in_where = ("call", "extend") in qw_tags
-            right_in_on = any(t[0] == "call" and t[1] == "reduce" for t in on_tags)
+            # the right input's predicates are recognised by where they come from (`right_query.where`), in whatever way
+            # they are folded in (reduce(and_, ..), a loop with `&` / and_, extend / +=)
+            def _from_right_where(v):
+                if isinstance(v, list):
+                    return any(_from_right_where(x) for x in v)
+                if not isinstance(v, Sym):
+                    return False
+                if "right_query.where" in v.text:
+                    return True
+                for t in v.tags:
+                    if t[0] == "elem-of" and "right_query.where" in t[1]:
+                        return True
+                    if t[0] == "callpos" and any("right_query.where" in str(x) for x in t[2]):
+                        return True
+                return False
+
+            right_in_where = _from_right_where(qw)
+            right_in_on = _from_right_where(on) and any(t[0] in ("call", "binop") and (t[1] in ("reduce", "and_") or (t[0] == "binop" and t[1] == "BitAnd")) for t in on_tags)
             if how == "inner":
                 good = right_in_where and not right_in_on
                 what = "right WHERE appended to the joined WHERE"
@@ -123,9 +142,6 @@ def run(chk):
             chk.ob("R3", sql, scfg.func, f"how={how}: {what}", good,
                    f"for how='{how}' the right input's WHERE is handled as where+={right_in_where}, on&={right_in_on}; documented: {what}")  # fmt: skip
     chk.floor("R2", "evaluated SQL join outcomes", n_outs, 3)
-    red = [c for st in stmts_s for c in calls_in(st) if (dotted(c.func) or "").endswith("reduce")]
-    chk.ob("R3", sql, scfg.func, "left join: ON = reduce(and_, (on, *right WHERE))", bool(red) and norm(red[0].args[0]).endswith("and_") and "right_query.where" in norm(red[0]),
-           "the right WHERE predicates are not AND-ed into the ON clause")  # fmt: skip
 
     # ---- R4
     cache = repo.mod("pipe.cache")
@@ -155,7 +171,11 @@ def run(chk):
         chk.ob("R5", sib.cfgs[name].module, sib.cfgs[name].func, f"{name} Join: visible = {S.show(sel)}", sel == ("cat", S.IN, S.RIN),
                f"{name}: visible columns after a join are {S.show(sel)}, documented: left columns then right columns")  # fmt: skip
     df = " ".join(norm(st) for st, _ in flat(Slicer(sym, cache, sib.cfgs["cache"].subject, jc).slice(sib.cfgs["cache"].func.body)))
-    chk.ob("R5", cache, sib.cfgs["cache"].func, "cache Join: derived_from = left | right", "derived_from = self.derived_from | right_cache.derived_from" in df,
+    jitems = Slicer(sym, cache, sib.cfgs["cache"].subject, jc).slice(sib.cfgs["cache"].func.body)
+    dfa = [st for st, _ in flat(jitems) if isinstance(st, ast.Assign) and any(norm(t).endswith(".derived_from") for t in st.targets)]
+    # `a | b`, `a.union(b)`, `{*a, *b}` ... : the assigned value mentions the derivation sets of both inputs
+    both_inputs = any("self.derived_from" in norm(a.value) and "right_cache.derived_from" in norm(a.value) for a in dfa)
+    chk.ob("R5", cache, sib.cfgs["cache"].func, "cache Join: derived_from = left | right", both_inputs,
            "the join result is not derived from both inputs: references to the right table's columns would be rejected / self-joins not detected")  # fmt: skip
 
     # ---- R6
@@ -207,9 +227,26 @@ def run(chk):
     except collide.Undecided as u:
         chk.note(f"R8: collision analysis undecided ({u}); no verdict")
     rn = pol.func("rename_overwritten_cols")
-    rsrc = norm(rn)
-    chk.ob("R8", pol, rn, "rename_overwritten_cols renames exactly the colliding names, in frame and map alike",
-           "names_to_consider.intersection(new_names)" in rsrc and "df.rename(name_map)" in rsrc and "name_map[name] if name in name_map else name" in rsrc,
+    # structural: one map {old name -> fresh name} over the colliding names; the frame is renamed with it and the
+    # uuid -> name map is rewritten through it (subscript or .get with the old name as fallback)
+    maps = [
+        norm(a.targets[0]) for a in ast.walk(rn)
+        if isinstance(a, ast.Assign) and isinstance(a.value, ast.DictComp) and isinstance(a.targets[0], ast.Name) and isinstance(a.value.value, (ast.JoinedStr, ast.BinOp, ast.Call))
+    ]
+    inter = any(
+        (isinstance(c, ast.Call) and isinstance(c.func, ast.Attribute) and c.func.attr == "intersection") or (isinstance(c, ast.BinOp) and isinstance(c.op, ast.BitAnd))
+        for c in ast.walk(rn)
+    )
+    good_helper = False
+    for mname in maps:
+        renamed = any(isinstance(c, ast.Call) and isinstance(c.func, ast.Attribute) and c.func.attr == "rename" and c.args and norm(c.args[0]) == mname for c in ast.walk(rn))
+        rewritten = any(
+            isinstance(d, ast.DictComp) and "name_in_df" in norm(d.generators[0].iter) and mname in {x.id for x in ast.walk(d.value) if isinstance(x, ast.Name)}
+            for d in ast.walk(rn)
+        )
+        good_helper = good_helper or (renamed and rewritten)
+    chk.ob("R8h", pol, rn, "rename_overwritten_cols renames exactly the colliding names, in frame and map alike",
+           inter and good_helper,
            "rename_overwritten_cols no longer renames the colliding columns consistently in the frame and in the uuid -> name map")  # fmt: skip
 
     # ---- R7
